@@ -86,6 +86,7 @@ def parseKind : List String → Option Kind
   | ["enable", c] => some (.enable (nat! c))
   | ["disable", c] => some (.disable (nat! c))
   | ["action", f, c] => some (.action (nat! f) (nat! c))
+  | ["state", d, c] => some (.state (d == "1") (nat! c))
   | _ => none
 
 def parseWrap (w : String) : Wrap :=
@@ -95,6 +96,8 @@ def parseWrap (w : String) : Wrap :=
   | ["ea"] => .enableAction
   | ["ld", n] => .limitDepth (nat! n)
   | ["lb", n] => .limitBytes (nat! n)
+  | ["cs", mu] => .changeState (mu == "1")
+  | ["cas", f, mu] => .changeActionAndState (nat! f) (mu == "1")
   | _ => .none
 
 def parseAct : List String → ActionSpec
@@ -115,8 +118,11 @@ def showEv : Ev → String
   | .failure i c => s!"fa {i} {showCur c}"
   | .unwind i c => s!"uw {i} {showCur c}"
   | .raise i c => s!"ra {i} {showCur c}"
-  | .apply i b e => s!"ap {i} {showCur b} {showCur e}"
-  | .apply0 i c => s!"a0 {i} {showCur c}"
+  | .apply i sd b e => s!"ap {i} {showCur b} {showCur e} {sd}"
+  | .apply0 i sd c => s!"a0 {i} {showCur c} {sd}"
+  | .sctor d => s!"sc {d}"
+  | .ssucc d c o => s!"ss {d} {showCur c} {o}"
+  | .sdtor d => s!"sd {d}"
 
 def showExc : Exc → String
   | .parse i c => s!"P {i} {showCur c}"
